@@ -110,13 +110,14 @@ CHECKS = {
  "C01": ("hypothesis+nvserve",
          "round-trip (encode->decode->encode) over generated one-instruction programs and over all decoder renderings + differential against independent MSP430 / RV32I reference encoders",
          "Generated-input search with round-trip and reference-model oracles: (a) every instruction text of tests/comparison "
-         "(47 CPUs; the hex column is not used) at 4 load addresses, (b) Hypothesis mutations of those texts (registers, "
-         "immediates at field boundaries, signed/unsigned spellings, PC-relative targets), (c) every rendering the "
+         "(47 CPUs; the hex column is not used) at 4 load addresses, (b) a fixed sequence of boundary-value mutants of those texts (registers, "
+         "immediates at field boundaries, signed/unsigned spellings, PC-relative boundary targets; quick = prefix of thorough), (c) every rendering the "
          "disassembler produces for the leading 16-bit patterns x tails of all 68 CPUs (shared scan with C07): the emitted "
          "bytes are walked by the disassembler (must consume exactly the emitted bytes) and each rendering is assembled "
          "again at its address (must give the same bytes); (d) MSP430 core (27 instructions x 7 source / 4 destination "
-         "modes x B/W incl. constant generators) and RV32I (40 instructions) forms with boundary operands are compared "
-         "byte-for-byte with pyprops/ref_encoders.py written from the architecture manuals.",
+         "modes x B/W incl. constant generators) and RV32I (40 instructions) forms generated by Hypothesis with boundary "
+         "operands are compared byte-for-byte with pyprops/ref_encoders.py written from the architecture manuals and sent "
+         "round the same loop.",
          "Trusted: pyprops/ref_encoders.py. Known assembler/disassembler disagreements are listed per (cpu, kind, mnemonic) in "
          "known_findings.json; anything else is a violation.",
          "DESIGN.md 3/C01, 9"),
